@@ -2,11 +2,11 @@ package vc
 
 import (
 	"fmt"
-	"math/big"
-	"os"
 	"go/ast"
 	"go/token"
 	"go/types"
+	"math/big"
+	"os"
 	"strings"
 )
 
@@ -156,11 +156,11 @@ func (vc *VC) evalConversion(fr *frame, st *State, c *ast.CallExpr, to types.Typ
 				return vc.bytesToString(st, s)
 			}
 			if isInteger(from) {
-					// string(rune): some short string (contents not modelled)
-					r := vc.fresh("runestr", SSlice)
-					vc.assume(st, vc.typeFacts(r, types.Typ[types.String], st.alloc))
-					return r
-				}
+				// string(rune): some short string (contents not modelled)
+				r := vc.fresh("runestr", SSlice)
+				vc.assume(st, vc.typeFacts(r, types.Typ[types.String], st.alloc))
+				return r
+			}
 			return v
 		}
 	case *types.Slice:
